@@ -346,11 +346,14 @@ var c34FocusSites = []string{
 }
 
 type c34Stats struct {
-	ilv       sync.Map
+	ilv       sync.Map // (case, observed order and outcomes of the whole history)
+	shapes    sync.Map // observed order alone
+	rerun     atomic.Int64
+	rerunDiff atomic.Int64
 	s9Samples atomic.Int64
 }
 
-func runC34Case(r *vlib.Run, c *c34Case, rng *vlib.RNG, st *c34Stats) {
+func runC34Case(r *vlib.Run, c *c34Case, rng *vlib.RNG, st *c34Stats) (traceHash uint64, completed bool) {
 	setPerturbation(rng.Fork("perturb"), c34FocusSites)
 	c.exec = incremental.New(incremental.WithParallelism(int64(c.par)))
 	c.mon = newCaseMon()
@@ -374,6 +377,8 @@ func runC34Case(r *vlib.Run, c *c34Case, rng *vlib.RNG, st *c34Stats) {
 	viol := func(kind, sig string, extra map[string]any) {
 		violated = true
 		r.Violation(kind, sig, c.id, witness(extra))
+		r.Eval(fmt.Sprintf("%s|%d|%v|%v", c.g.String(), c.par, c.steps, c.swallow)) // a refuted history is an evaluated history
+		r.Class("histories-refuted")
 	}
 	mode := "propagate"
 	if c.swallow {
@@ -696,7 +701,9 @@ func runC34Case(r *vlib.Run, c *c34Case, rng *vlib.RNG, st *c34Stats) {
 	if violated {
 		return
 	}
-	st.ilv.Store(vlib.Hash64(c.id)^vlib.Hash64(trace.String()), true)
+	traceHash = vlib.Hash64(trace.String())
+	st.ilv.Store(vlib.Hash64(c.id)^traceHash, true)
+	st.shapes.Store(traceHash, true)
 	anyCycle := false
 	for i := 0; i < c.g.N; i++ {
 		if c.rp[i]&(1<<uint(i)) != 0 {
@@ -722,6 +729,7 @@ func runC34Case(r *vlib.Run, c *c34Case, rng *vlib.RNG, st *c34Stats) {
 	if c.id == "dg3/100/0" || c.id == "rnd/0" || c.id == "s9/0" {
 		r.Sample("history:"+c.id, witness(map[string]any{"trace": trace.String()}))
 	}
+	return traceHash, true
 }
 
 func firstLine(s string) string {
@@ -750,9 +758,9 @@ func TestC34(t *testing.T) {
 	})
 
 	small := allSmallDigraphs()
-	nSmall := r.N(len(small), len(small)*12)
-	nRnd := r.N(900, 14000)
-	nS9 := r.N(300, 4000) // two+ concurrent roots on one cycle, the shape S9 needs
+	nSmall := r.N(len(small), len(small)*30)
+	nRnd := r.N(900, 36000)
+	nS9 := r.N(300, 10000) // two+ concurrent roots on one cycle, the shape S9 needs
 	var st c34Stats
 	pars := []int{1, 2, 4}
 	reps := 1
@@ -817,12 +825,26 @@ func TestC34(t *testing.T) {
 			if rep > 0 {
 				prng = vlib.NewRNG(rng.Uint64() + uint64(rep))
 			}
-			runC34Case(r, c, prng, &st)
+			h1, ok := runC34Case(r, c, prng, &st)
+			if ok && rep == 0 && !r.Replaying() && i%8 == 0 {
+				c2 := &c34Case{id: id, g: c.g, par: c.par, swallow: c.swallow, steps: c.steps, cl: c.cl, rp: c.rp, ref: c.ref, refOK: c.refOK}
+				if h2, ok2 := runC34Case(r, c2, rng.Fork("rerun"), &st); ok2 {
+					st.rerun.Add(1)
+					if h1 != h2 {
+						st.rerunDiff.Add(1)
+					}
+				}
+			}
 		}
 	})
 	nI := 0
 	st.ilv.Range(func(_, _ any) bool { nI++; return true })
-	r.ClassN("distinct-interleavings-observed", int64(nI))
+	r.ClassN("distinct-(history,observed-order)-pairs", int64(nI))
+	nI = 0
+	st.shapes.Range(func(_, _ any) bool { nI++; return true })
+	r.ClassN("distinct-observed-orders-of-a-history", int64(nI))
+	r.ClassN("histories-run-twice", st.rerun.Load())
+	r.ClassN("histories-run-twice-with-a-different-observed-order", st.rerunDiff.Load())
 	if !r.Quick() || nSmall >= len(small) {
 		r.Extra("small_digraph_enumeration", fmt.Sprintf("all %d digraphs on <=3 nodes (self-loops included)", len(small)))
 	}
